@@ -82,9 +82,9 @@ func TestVerifC10(t *testing.T) {
 	rng := &verifRng{s: verifSeed()}
 	const cookieName = "verif-session"
 	hosts := []string{"app.example.com", "other.example.com", "example.com", "app.example.com:8443"}
-	paths := []string{"/", "/a", "/a/b", "/a/b/c", "/other"}
+	paths := []string{"/", "/a", "/a/b", "/a/b/c", "/other", "/a/", "/a/b/", "/other/", "/a//b", "/a/./b"}
 	setPool := []string{"k1=v1", "k1=v2", "k2=w; Path=/a", "k3=x; Path=/a/b", "k4=dom; Domain=example.com", "k5=sec; Secure", "k6=ho; HttpOnly", "k1=; Max-Age=0",
-		"k2=gone; Path=/a; Expires=Thu, 01 Jan 1970 00:00:00 GMT", "k7=other; Domain=other.example.com", "k8=p; Path=/other", "k9=long; Max-Age=3600", "bad cookie", "k10=\"quoted\""}
+		"k2=gone; Path=/a; Expires=Thu, 01 Jan 1970 00:00:00 GMT", "k7=other; Domain=other.example.com", "k8=p; Path=/other", "k9=long; Max-Age=3600", "bad cookie", "k10=\"quoted\"", "k11=slash; Path=/a/", "k12=deep; Path=/a/b/"}
 	nh := 60
 	if verifThorough() {
 		nh = 2500
